@@ -45,7 +45,7 @@ macro_rules! impl_ranges {
 
         impl<Idx: MaxSizeOf> MaxSizeOf for core::ops::$ty<Idx> {
             fn max_size_of() -> usize {
-                core::mem::size_of::<Self>()
+                core::mem::size_of::<Self>().max(1)
             }
         }
     };
@@ -75,7 +75,7 @@ impl AlignHash for core::ops::RangeFull {
 
 impl MaxSizeOf for core::ops::RangeFull {
     fn max_size_of() -> usize {
-        0
+        1
     }
 }
 
